@@ -153,11 +153,17 @@ def t_cumsum(fn, params, operands):
     return out, Cop(n, [(0, maps)], ("lin", [ones(n)], zeros(n)), (a.size, keys)), False
 
 
-def _gather_op(out_idx, a, view):
-    out_idx = np.asarray(out_idx)
+def _gather_op(f, a):
+    """f: the NumPy operation; applied to the labelled index array (-> index map) and to the mirror array
+    itself (-> values in their real memory layout, and whether NumPy returns a view)"""
+    out_idx = np.asarray(f(idx_of(a.shape)))
+    rv = f(a)
+    # MyGrad's rule (Tensor._op): a view iff NumPy's result has a base (identity-returning calls such as
+    # np.squeeze with nothing to squeeze return the input itself: no base unless the input has one)
+    view = isinstance(rv, np.ndarray) and rv.base is not None and rv.size > 0 and np.shares_memory(rv, a)
     m = flat(out_idx)
     n = len(m)
-    return a.ravel()[out_idx] if out_idx.size else np.zeros(out_idx.shape, dtype=np.int64), Cop(n, [(0, m)], ("lin", [ones(n)], zeros(n)), None), view
+    return (rv if isinstance(rv, np.ndarray) else np.asarray(rv)), Cop(n, [(0, m)], ("lin", [ones(n)], zeros(n)), None), view
 
 
 def py_index(ix):
@@ -182,39 +188,32 @@ def py_index(ix):
 
 def t_gatherlike(fn, params, operands):
     (s, a), = operands
-    I = idx_of(s)
     if fn == "getitem":
         index = py_index(params["index"])
-        r = I[index]
-        view = isinstance(r, np.ndarray) and r.base is not None and np.shares_memory(r, I) if isinstance(r, np.ndarray) else True
-        r = np.asarray(r)
-        adv = any(isinstance(e, np.ndarray) for e in (index if isinstance(index, tuple) else (index,)))
-        return _gather_op(r, a, (not adv))
+        return _gather_op(lambda x: x[index], a)
     if fn == "reshape":
-        r = I.reshape(params["shape"])
-        return _gather_op(r, a, True)
+        return _gather_op(lambda x: x.reshape(params["shape"]), a)
     if fn == "transpose":
-        r = np.transpose(I, params.get("axes"))
-        return _gather_op(r, a, True)
+        return _gather_op(lambda x: np.transpose(x, params.get("axes")), a)
     if fn == "swapaxes":
-        return _gather_op(np.swapaxes(I, params["a1"], params["a2"]), a, True)
+        return _gather_op(lambda x: np.swapaxes(x, params["a1"], params["a2"]), a)
     if fn == "moveaxis":
-        return _gather_op(np.moveaxis(I, params["src"], params["dst"]), a, True)
+        return _gather_op(lambda x: np.moveaxis(x, params["src"], params["dst"]), a)
     if fn == "squeeze":
         ax = params.get("axis")
-        return _gather_op(np.squeeze(I, axis=tuple(ax) if isinstance(ax, list) else ax), a, True)
+        return _gather_op(lambda x: np.squeeze(x, axis=tuple(ax) if isinstance(ax, list) else ax), a)
     if fn == "expand_dims":
-        return _gather_op(np.expand_dims(I, params["axis"]), a, True)
+        return _gather_op(lambda x: np.expand_dims(x, params["axis"]), a)
     if fn == "broadcast_to":
-        return _gather_op(np.broadcast_to(I, params["shape"]), a, True)
+        return _gather_op(lambda x: np.broadcast_to(x, params["shape"]), a)
     if fn == "ravel":
-        return _gather_op(I.ravel(), a, True)
+        return _gather_op(lambda x: np.ravel(x), a)
     if fn == "flatten":
-        return _gather_op(I.flatten(), a, False)
+        return _gather_op(lambda x: x.flatten(), a)
     if fn == "repeat":
-        return _gather_op(np.repeat(I, params["repeats"], axis=params.get("axis")), a, False)
+        return _gather_op(lambda x: np.repeat(x, params["repeats"], axis=params.get("axis")), a)
     if fn == "roll":
-        return _gather_op(np.roll(I, params["shift"], axis=params.get("axis")), a, False)
+        return _gather_op(lambda x: np.roll(x, params["shift"], axis=params.get("axis")), a)
     raise KeyError(fn)
 
 
@@ -262,7 +261,8 @@ def t_einsum(fn, params, operands):
     key = [int(Iout[tuple(g[pos[ch]] for ch in rhs)]) for g in grids]
     out = np.einsum(spec, *[a for _, a in operands])
     n = len(grids)
-    return np.asarray(out), Cop(n, args, ("mul",), (int(np.prod(out_shape, dtype=np.int64)), key)), False
+    view = isinstance(out, np.ndarray) and out.base is not None and out.size > 0 and any(np.shares_memory(out, a) for _, a in operands)
+    return np.asarray(out), Cop(n, args, ("mul",), (int(np.prod(out_shape, dtype=np.int64)), key)), view
 
 
 def t_matmul(fn, params, operands):
@@ -311,7 +311,12 @@ for _f in ("add_sequence", "multiply_sequence"):
 
 def translate(fn, params, operands):
     """operands: list of (shape tuple, int64 ndarray).  Returns (out_shape, out ndarray, Cop, is_view)."""
-    out, cop, view = TRANSLATORS[fn](fn, params, [(tuple(s), np.asarray(a, dtype=np.int64).reshape(s)) for s, a in operands])
+    ops = []
+    for s, a in operands:
+        a = a if isinstance(a, np.ndarray) and a.dtype == np.int64 and a.shape == tuple(s) else np.asarray(a, dtype=np.int64).reshape(s)
+        ops.append((tuple(s), a))
+    operands = ops
+    out, cop, view = TRANSLATORS[fn](fn, params, operands)
     out = np.asarray(out)
     got = cop.evaluate([flat(a) for _, a in operands])
     if got != flat(out):
